@@ -75,7 +75,7 @@ func Run(r *ev.Run) {
 	// type / structure changing JSON edits (same spelling): every direction must have been tried and detected
 	for _, k := range []string{"json-retype-string-to-number", "json-retype-string-to-boolean", "json-retype-string-to-null", "json-retype-number-to-string",
 		"json-retype-boolean-to-string", "json-retype-null-to-string", "json-recut-member-moved-into-previous-value", "json-recut-value-cut-into-two-members"} {
-		r.RequireAtLeast("o2_detected_kind:"+k, 5)
+		r.RequireAtLeast("o2_detected_kind:"+k, 3)
 	}
 }
 
@@ -272,7 +272,7 @@ func phaseFull(r *ev.Run, dir string, broken map[string]bool) {
 	// so that every direction of the type-changing edits, and both re-cut edits, are exercised whatever the seeded logs drew
 	if !broken["json|literal-spelling@value"] && !broken["json|delimiter-recut@value"] {
 		next := 0 // the typed values are dealt in turn, so that every direction occurs whatever the seed
-		for i := 0; i < r.Pick(6, 24); i++ {
+		for i := 0; i < r.Pick(8, 24); i++ {
 			rng := gen.New(r.Seed, fmt.Sprintf("directed-typed|%d", i))
 			t := baseTime(rng)
 			spec := &logSpec{id: fmt.Sprintf("typed-json-%d", i), t0: t, format: logging.JSONFormatString, wiring: []string{wHandler, wServer}[i%2], key: gen.Bytes(rng, 32), finalize: i%4 != 3}
